@@ -20,7 +20,8 @@ use super::*;
 macro_rules! c13_ghost_support {
     () => {
         /// KDF.Nh (kdf_extract_size), AEAD.Nk, AEAD.Nn and the hash / MAC output length of the
-        /// ghost suite.  Pairwise different so that a wrong size function shows up in the trace.
+        /// ghost suite.  Pairwise different so that a wrong size function shows up in the trace
+        /// (in the requested length and in KDFLabel.length).
         pub(crate) const NH: usize = 2;
         pub(crate) const NK: usize = 3;
         pub(crate) const NN: usize = 1;
@@ -330,7 +331,11 @@ macro_rules! c13_ghost_support {
                 len: usize,
             ) -> Result<::zeroize::Zeroizing<::alloc::vec::Vec<u8>>, GhostError> {
                 let tag = self.record(Op::Expand, prk, info, len)?;
-                Ok(::zeroize::Zeroizing::new(::alloc::vec![tag; len]))
+                // The answer is an opaque token for the code under test: always NH bytes,
+                // whatever length was requested (the requested length is in the trace and is
+                // checked there).  An answer of symbolic size would make every later pointer
+                // write a case split for CBMC (the "every Length" harnesses ran out of memory).
+                Ok(::zeroize::Zeroizing::new(::alloc::vec![tag; NH]))
             }
 
             fn kdf_extract_size(&self) -> usize {
@@ -687,13 +692,8 @@ fn expand_with_label_case(secret: &[u8], label: &[u8], context: &[u8]) {
         &rfc_kdf_label(want_len as u16, label, context),
         want_len
     ));
-    // the provider's answer is returned unchanged (checked at an arbitrary position)
-    assert!(o.len() == want_len);
-    let i: usize = kani::any();
-    kani::assume(i < want_len);
-    assert!(o[i] == 1);
-    // up to 65535 bytes: do not run the zeroizing drop loop
-    core::mem::forget(o);
+    // the provider's answer is returned unchanged
+    assert!(is_out(&o, 1, NH));
 }
 
 macro_rules! expand_with_label_harness {
@@ -1115,8 +1115,8 @@ fn c13_welcome_secret() {
     let k = p.find(Op::Expand, &out(2, NH), &rfc_kdf_label(NK as u16, b"key", &[]), NK);
     let n = p.find(Op::Expand, &out(2, NH), &rfc_kdf_label(NN as u16, b"nonce", &[]), NN);
     assert!(k.is_some() && n.is_some());
-    assert!(is_out(&w.key, k.unwrap(), NK));
-    assert!(is_out(&w.nonce, n.unwrap(), NN));
+    assert!(is_out(&w.key, k.unwrap(), NH));
+    assert!(is_out(&w.nonce, n.unwrap(), NH));
 }
 
 // ============================================================ 5. exporter
@@ -1141,11 +1141,8 @@ fn export_secret_case(label: &[u8], context: &[u8]) {
     assert!(d.is_some() && h.is_some());
     let info = rfc_kdf_label(len as u16, b"exported", &out(h.unwrap(), HASH_LEN));
     assert!(p.is(2, Op::Expand, &out(d.unwrap(), NH), &info, len));
-    assert!(o.len() == len);
-    let i: usize = kani::any();
-    kani::assume(i < len);
-    assert!(o[i] == 3);
-    core::mem::forget((o, ks));
+    assert!(is_out(&o, 3, NH));
+    core::mem::forget(ks);
 }
 
 macro_rules! export_secret_harness {
@@ -1186,33 +1183,20 @@ fn c13_export_secret_deleted() {
 
 // ---- TEMP experiments
 #[kani::proof]
-#[kani::stub(zeroize::optimization_barrier, noop_barrier)]
 #[kani::unwind(82)]
-fn z1_export_concrete_len() {
-    let label: [u8; 2] = kani::any();
-    let context: [u8; 2] = kani::any();
-    let exporter = any_exact::<NH>();
-    let len: usize = 300;
-    let mut ks = KeySchedule::default();
-    ks.exporter_secret = Zeroizing::new(exporter.clone());
-    let p = GhostProvider::new();
-    let r = ks.export_secret(&label, &context, len, &p);
-    assert!(r.is_ok());
-    let o = r.ok().unwrap();
-    assert!(p.calls() == 3);
-    let d = p.find(Op::Expand, &exporter, &rfc_kdf_label(NH as u16, &label, &[]), NH);
-    let h = p.find(Op::Hash, &[], &context, 0);
-    assert!(d.is_some() && h.is_some());
-    let info = rfc_kdf_label(len as u16, b"exported", &out(h.unwrap(), HASH_LEN));
-    assert!(p.is(2, Op::Expand, &out(d.unwrap(), NH), &info, len));
-    core::mem::forget((o, ks));
+fn z3_ctx_noext() {
+    let g: [u8; 2] = kani::any();
+    let t: [u8; 1] = kani::any();
+    let h: [u8; 1] = kani::any();
+    group_context_case(&g, &t, &h, None);
 }
 
 #[kani::proof]
-#[kani::stub(zeroize::optimization_barrier, noop_barrier)]
 #[kani::unwind(82)]
-fn z2_export_symbolic_len_one_arm() {
-    let label: [u8; 2] = kani::any();
-    let context: [u8; 2] = kani::any();
-    export_secret_case(&label, &context);
+fn z4_ctx_ext() {
+    let g: [u8; 2] = kani::any();
+    let t: [u8; 1] = kani::any();
+    let h: [u8; 1] = kani::any();
+    let e: [u8; 1] = kani::any();
+    group_context_case(&g, &t, &h, Some(&e));
 }
